@@ -216,25 +216,25 @@ theorem inv_startPull {s : Srv} (h : Inv s) (st : Stream) (r : Bool) (retry : Op
     refine h.spawnOnly hok (by simpa using hf) ?_ (fun sl y => holds_startPull _ r retry nid sl y)
     unfold Grp.startPull; exact pullIfNeeded_spawn _ nid
 
-theorem inv_stopPull {s : Srv} (h : Inv s) (st : Stream) : Inv (stopPull s st).1 := by
-  have hok : OkAll (stopPull s st).1 := ok_step h.ok (.stopPull st)
+theorem inv_stopPull {s : Srv} (h : Inv s) (st : Stream) : Inv (stopPull Code.fixed s st).1 := by
+  have hok : OkAll (stopPull Code.fixed s st).1 := ok_step h.ok (.stopPull st)
   unfold stopPull at hok ⊢
   split
   · exact h
   · rename_i g hg
     simp only [hg] at hok
     refine h.sameSess hok (h.ci.same rfl ?_) rfl
-    exact holdsAt_keep (s := s) (k := st) (g' := g.stopPull.1) rfl (fun sl y => by rw [getOrCreate_of_groups hg]; exact holds_stopPull g sl y)
+    exact holdsAt_keep (s := s) (k := st) (g' := (g.stopPull Code.fixed).1) rfl (fun sl y => by rw [getOrCreate_of_groups hg]; exact holds_stopPull _ g sl y)
 
-theorem inv_kick {s : Srv} (h : Inv s) (st : Stream) (x : Sid) : Inv (kick s st x).1 := by
-  have hok : OkAll (kick s st x).1 := ok_step h.ok (.kick st x)
+theorem inv_kick {s : Srv} (h : Inv s) (st : Stream) (x : Sid) : Inv (kick Code.fixed s st x).1 := by
+  have hok : OkAll (kick Code.fixed s st x).1 := ok_step h.ok (.kick st x)
   unfold kick at hok ⊢
   split
   · exact h
   · rename_i g hg
     simp only [hg] at hok
     refine h.sameSess hok (h.ci.same rfl ?_) rfl
-    exact holdsAt_keep (s := s) (k := st) (g' := (g.kick (kkind s x) x).1) rfl (fun sl y => by rw [getOrCreate_of_groups hg]; exact holds_kick g _ x sl y)
+    exact holdsAt_keep (s := s) (k := st) (g' := (g.kick Code.fixed (kkind s x) x).1) rfl (fun sl y => by rw [getOrCreate_of_groups hg]; exact holds_kick _ g _ x sl y)
 
 theorem inv_tick {s : Srv} (h : Inv s) (st : Stream) (nid : Sid) : Inv (tick s st nid).1 := by
   have hok : OkAll (tick s st nid).1 := ok_step h.ok (.tick st nid)
@@ -361,14 +361,14 @@ theorem inv_pullAttach {s : Srv} (h : Inv s) (a : Sid) : Inv (pullAttach Code.fi
           · intro r hs; rw [hsess] at hs; simp at hs
         cases hr : p.rtsp
         · simp only [hr, Bool.false_eq_true, if_false] at hok ⊢
-          by_cases hacc : (g.addRtmpPull a).2.1 = true
+          by_cases hacc : (g.addRtmpPull Code.fixed a).2.1 = true
           · rw [if_pos hacc] at hok ⊢
             exact accepted _ _ .pullRtmp (by simp [hr]) (fun sl y => holds_addRtmpPull hacc sl y) hok
           · rw [if_neg hacc]
             have := inv_pullEnd h hp false
             simpa using this
         · simp only [hr, if_true] at hok ⊢
-          by_cases hacc : (g.addRtspPull a).2.1 = true
+          by_cases hacc : (g.addRtspPull Code.fixed a).2.1 = true
           · rw [if_pos hacc] at hok ⊢
             exact accepted _ _ .pullRtsp (by simp [hr]) (fun sl y => holds_addRtspPull hacc sl y) hok
           · rw [if_neg hacc]
